@@ -1,6 +1,8 @@
 // C07 — parallel_pipeline: each item through every filter exactly once, serial_in_order filters share one
 // order, serial filters never overlap, live tokens bounded, call returns after the last item left.
 #include "rt_common.h"
+#include "oneapi/tbb/task_group.h"
+#include "oneapi/tbb/parallel_for.h"
 #include "oneapi/tbb/parallel_pipeline.h"
 
 namespace {
@@ -51,7 +53,12 @@ SIM_SCENARIO(scen_c07, "c07", "C07", 8000000, 40000) {
     static const size_t huge_limits[] = {(size_t)1 << 31, ((size_t)1 << 32) - 1, (size_t)1 << 40, (size_t)1 << 63, ~(size_t)0};
     size_t token_limit = (!deep && sim::draw(8, "huge_limit") == 0) ? huge_limits[sim::draw(5, "which_huge")] : (size_t)ntokens;
     if (token_limit != (size_t)ntokens && nitems > 17) nitems = 17;
-    d.add(hx::fmt("pipeline filters=%s tokens=%zu items=%d maxdelay=%d delay_shape=%d arena=%d", ms.c_str(), token_limit, nitems, maxdelay, delay_shape, conc));
+    // nested waits inside filter bodies (the input filter included): the thread that waits there runs other tasks meanwhile,
+    // among them stage tasks of this very pipeline (another invocation of the input filter that reaches the end and stops)
+    int nested = deep ? 0 : (int)sim::draw(4, "nested_wait");      // 0,1: none; 2: parallel_for; 3: task_group
+    if (nested < 2) nested = 0;
+    d.add(hx::fmt("pipeline filters=%s tokens=%zu items=%d maxdelay=%d delay_shape=%d arena=%d nested-wait=%s", ms.c_str(), token_limit, nitems, maxdelay, delay_shape, conc,
+                  nested == 0 ? "none" : nested == 2 ? "parallel_for in a third of the bodies" : "task_group in a third of the bodies"));
     d.publish();
 
     std::vector<StageLog> st(nfilters);
@@ -67,6 +74,12 @@ SIM_SCENARIO(scen_c07, "c07", "C07", 8000000, 40000) {
         else if (delay_shape == 2 && stage == nfilters - 1 && item == 1) n = maxdelay * 6;
         else if (delay_shape == 3) n = (stage > 0 && stage < nfilters - 1) ? (item % 10 >= 9 ? 0 : maxdelay + (int)(h % 7)) : (stage == nfilters - 1 && item == 1 ? maxdelay * 4 : 0);
         for (int k = 0; k < n; ++k) sim::upoint();
+        if (nested && ((h >> 40) % 3 == 0 || item == nitems)) {
+            int inner = 1 + (int)((h >> 44) % 4);
+            if (nested == 2) tbb::parallel_for(0, 3, [&](int) { for (int k = 0; k < inner; ++k) sim::upoint(); }, tbb::simple_partitioner());
+            else { tbb::task_group tg; tg.run([&] { for (int k = 0; k < inner; ++k) sim::upoint(); }); for (int k = 0; k < inner; ++k) sim::upoint(); tg.wait(); }
+            sim::probe("nested-wait-inside-filter");
+        }
     };
     auto enter = [&](int stage, int item) {
         SIM_CHECK(!call_returned, "oracle:late-filter", "filter %d invoked for item %d after parallel_pipeline returned", stage, item);
